@@ -2,6 +2,10 @@ import Vflow.Proofs.JsonTree
 import Vflow.Props.C08
 import Vflow.Proofs.SflowJsonTree
 import Vflow.Proofs.JsonAccepted
+import Vflow.Props.C12
+import Vflow.Props.C03
+import Vflow.Proofs.RoundIpfix
+import Vflow.Proofs.RoundV9
 /-!
 # C05 — every published message is valid JSON that faithfully carries the decode
 
@@ -225,6 +229,167 @@ example : render (pktTree ⟨{}, .none, .icmp 8 0 [1, 2, 3, 4]⟩) = txt [
 example : sflowJson? { exampleDatagram with ip := [1, 2, 3, 4, 5] } = none := by decide +kernel
 
 end SflowSection
+
+/-! ## End to end: what the worker pool publishes
+
+The pipeline theorems (C12 / C13) are about an abstract codec; the decoding theorems (C03 / C06) and the rendering
+theorems above are about one call. Here the pipeline's codec parameter is instantiated with the decoder models and
+the marshal model, and the pieces are composed: for ANY number of workers running the worker loop extracted from the
+current source, ANY sequence of datagrams (arbitrary octets, arbitrary exporters) and EVERY schedule, every payload
+handed to the message queue is the compact rendering of the message tree of the decode of ONE received datagram's own
+octets (against the template cache in force when it was decoded), and is accepted by `encoding/json`'s scanner.
+`ft` is the float text (`strconv.FormatFloat`, an input of the model: hypothesis `FloatOk`, see the header). -/
+section EndToEnd
+open Vflow.Pipeline
+
+/-- a decoded field as the marshaller sees it -/
+def toJ (ft : Val → Bytes) (f : DField) : JField := ⟨f.id, f.ent, f.val, ft f.val⟩
+
+def toJRecs (ft : Val → Bytes) (recs : List Record) : List (List JField) := recs.map (·.map (toJ ft))
+
+/-- the IPFIX instance of the pipeline's codec: `Decode` (`none` = nil message), the worker's
+`len(decodedMsg.DataSets) > 0`, `JSONMarshal` (never fails) -/
+def ipfixCodec (ft : Val → Bytes) : Codec where
+  Cache := Cache
+  Msg := Bytes × Hdr × List Record
+  decode := fun c addr bs =>
+    match Ipfix.decode c addr bs with
+    | (.ok (h, recs, _), c') => (some (addr, h, recs), c')
+    | (.error _, c') => (none, c')
+  hasData := fun m => !m.2.2.isEmpty
+  marshal := fun m => some (Ipfix.marshal (ipBytes m.1) m.2.1 (toJRecs ft m.2.2))
+
+/-- the NetFlow v9 instance (`decodedMsg.DataSets != nil`) -/
+def v9Codec (ft : Val → Bytes) : Codec where
+  Cache := Cache
+  Msg := Bytes × Hdr × List Record
+  decode := fun c addr bs =>
+    match V9.decode c addr bs with
+    | (.ok (h, recs, _), c') => (some (addr, h, recs), c')
+    | (.error _, c') => (none, c')
+  hasData := fun m => !m.2.2.isEmpty
+  marshal := fun m => some (V9.marshal (ipBytes m.1) m.2.1 (toJRecs ft m.2.2))
+
+theorem toJRecs_floatOk (ft : Val → Bytes) (hft : ∀ i e v, FloatOk ⟨i, e, v, ft v⟩) (recs : List Record) :
+    ∀ r ∈ toJRecs ft recs, ∀ f ∈ r, FloatOk f := by
+  intro r hr f hf
+  simp only [toJRecs, List.mem_map] at hr
+  obtain ⟨r0, _, rfl⟩ := hr
+  simp only [List.mem_map] at hf
+  obtain ⟨f0, _, rfl⟩ := hf
+  exact hft f0.id f0.ent f0.val
+
+/-- **C05 end to end (IPFIX)**: every payload the IPFIX worker pool publishes -/
+theorem ipfix_published_end_to_end {cfg : Cfg} {spec : CountSpec} (ft : Val → Bytes)
+    (hft : ∀ i e v, FloatOk ⟨i, e, v, ft v⟩) (hc : Canonical spec cfg.prog)
+    {c : Cache} {mem0 : BufId → Bytes} {s : State (ipfixCodec ft)}
+    (hr : Reach cfg (init (ipfixCodec ft) c mem0) s) (id : Nat) (p : Bytes)
+    (hp : Event.published id p ∈ s.log) :
+    ∃ (d : Dgram) (cache : Cache) (h : Hdr) (recs : List Record) (errs : List Err),
+      Event.received d ∈ s.log ∧ d.id = id ∧
+      (Ipfix.decode cache d.addr d.bytes).1 = .ok (h, recs, errs) ∧ recs ≠ [] ∧
+      p = render (ipfixTree d.addr h (toJRecs ft recs)) ∧
+      DVal p (ipfixTree d.addr h (toJRecs ft recs)) ∧ jsonValid p = true := by
+  obtain ⟨d, cache, h1, h2, m, hm, hd, hmar⟩ := C12.solo_spelled_out ((C12.published_is_solo hc hr).2.2 id p hp)
+  have hdec : (ipfixCodec ft).decode cache d.addr d.bytes =
+      (match Ipfix.decode cache d.addr d.bytes with
+       | (.ok (h, recs, _), c') => (some (d.addr, h, recs), c')
+       | (.error _, c') => (none, c')) := rfl
+  rw [hdec] at hm
+  cases hx : Ipfix.decode cache d.addr d.bytes with
+  | mk res c' =>
+    rw [hx] at hm
+    cases res with
+    | error e => simp at hm
+    | ok v =>
+      obtain ⟨h, recs, errs⟩ := v
+      have hm' := Option.some.inj hm
+      subst hm'
+      have hne : recs ≠ [] := by
+        intro h0; subst h0; simp [ipfixCodec] at hd
+      have hp' : p = Ipfix.marshal (ipBytes d.addr) h (toJRecs ft recs) := by
+        simp [ipfixCodec] at hmar; exact hmar.symm
+      have hfo := toJRecs_floatOk ft hft recs
+      refine ⟨d, cache, h, recs, errs, h1, h2, by rw [hx], hne, ?_, ?_, ?_⟩
+      · rw [hp', ipfix_marshal_eq_render]
+      · rw [hp']; exact ipfix_marshal_valid _ _ _ hfo
+      · rw [hp']; exact ipfix_marshal_accepted _ _ _ hfo
+
+/-- **C05 end to end (NetFlow v9)** -/
+theorem v9_published_end_to_end {cfg : Cfg} {spec : CountSpec} (ft : Val → Bytes)
+    (hft : ∀ i e v, FloatOk ⟨i, e, v, ft v⟩) (hc : Canonical spec cfg.prog)
+    {c : Cache} {mem0 : BufId → Bytes} {s : State (v9Codec ft)}
+    (hr : Reach cfg (init (v9Codec ft) c mem0) s) (id : Nat) (p : Bytes)
+    (hp : Event.published id p ∈ s.log) :
+    ∃ (d : Dgram) (cache : Cache) (h : Hdr) (recs : List Record) (errs : List Err),
+      Event.received d ∈ s.log ∧ d.id = id ∧
+      (V9.decode cache d.addr d.bytes).1 = .ok (h, recs, errs) ∧ recs ≠ [] ∧
+      p = render (v9Tree d.addr h (toJRecs ft recs)) ∧
+      DVal p (v9Tree d.addr h (toJRecs ft recs)) ∧ jsonValid p = true := by
+  obtain ⟨d, cache, h1, h2, m, hm, hd, hmar⟩ := C12.solo_spelled_out ((C12.published_is_solo hc hr).2.2 id p hp)
+  have hdec : (v9Codec ft).decode cache d.addr d.bytes =
+      (match V9.decode cache d.addr d.bytes with
+       | (.ok (h, recs, _), c') => (some (d.addr, h, recs), c')
+       | (.error _, c') => (none, c')) := rfl
+  rw [hdec] at hm
+  cases hx : V9.decode cache d.addr d.bytes with
+  | mk res c' =>
+    rw [hx] at hm
+    cases res with
+    | error e => simp at hm
+    | ok v =>
+      obtain ⟨h, recs, errs⟩ := v
+      have hm' := Option.some.inj hm
+      subst hm'
+      have hne : recs ≠ [] := by
+        intro h0; subst h0; simp [v9Codec] at hd
+      have hp' : p = V9.marshal (ipBytes d.addr) h (toJRecs ft recs) := by
+        simp [v9Codec] at hmar; exact hmar.symm
+      have hfo := toJRecs_floatOk ft hft recs
+      refine ⟨d, cache, h, recs, errs, h1, h2, by rw [hx], hne, ?_, ?_, ?_⟩
+      · rw [hp', v9_marshal_eq_render]
+      · rw [hp']; exact v9_marshal_valid _ _ _ hfo
+      · rw [hp']; exact v9_marshal_accepted _ _ _ hfo
+
+/-- … and with the worker loops the current source has (regenerated `Gen.ipfixWorker` / `Gen.netflowV9Worker`) -/
+theorem ipfix_published_current_source (ft : Val → Bytes) (hft : ∀ i e v, FloatOk ⟨i, e, v, ft v⟩)
+    {cfg : Cfg} (hprog : cfg.prog = Gen.ipfixWorker)
+    {c : Cache} {mem0 : BufId → Bytes} {s : State (ipfixCodec ft)}
+    (hr : Reach cfg (init (ipfixCodec ft) c mem0) s) (id : Nat) (p : Bytes)
+    (hp : Event.published id p ∈ s.log) :
+    jsonValid p = true ∧ ∃ (d : Dgram) (cache : Cache) (h : Hdr) (recs : List Record) (errs : List Err),
+      Event.received d ∈ s.log ∧ d.id = id ∧
+      (Ipfix.decode cache d.addr d.bytes).1 = .ok (h, recs, errs) ∧
+      p = render (ipfixTree d.addr h (toJRecs ft recs)) := by
+  have hc : Canonical .onMsg cfg.prog := by rw [hprog]; exact C12.ipfixWorker_canonical
+  obtain ⟨d, cache, h, recs, errs, h1, h2, h3, _, h5, _, h7⟩ := ipfix_published_end_to_end ft hft hc hr id p hp
+  exact ⟨h7, d, cache, h, recs, errs, h1, h2, h3, h5⟩
+
+/-- the whole chain for a conforming exporter: if the received datagram is the encoding of a well-formed IPFIX
+message `m` (RFC 7011 as specified in `Spec.Wire`, templates in the cache or announced earlier in `m`), the payload is
+the rendering of the tree of `m`'s header and of exactly `m`'s records, in wire order (C03 `message_roundtrip` ∘ the
+theorem above) -/
+theorem ipfix_wellformed_published (ft : Val → Bytes) (cache : Cache) (addr : Bytes) (m : Wire.Ipfix.Msg)
+    (hw : Wire.Ipfix.wfMsg addr cache m = true) (hne : (Wire.Ipfix.expected addr cache m).1 ≠ []) :
+    outcome (ipfixCodec ft) ((ipfixCodec ft).decode cache addr (Wire.Ipfix.encodeMsg m)).1 =
+      some (render (ipfixTree addr (Wire.Ipfix.expectedHdr m) (toJRecs ft (Wire.Ipfix.expected addr cache m).1))) := by
+  have h := Ipfix.decode_roundtrip cache addr m hw
+  simp only [ipfixCodec, h, outcome, Option.bind_some]
+  have : (Wire.Ipfix.expected addr cache m).1.isEmpty = false := by
+    cases hx : (Wire.Ipfix.expected addr cache m).1 with
+    | nil => exact absurd hx hne
+    | cons _ _ => rfl
+  simp [this, ipfix_marshal_eq_render]
+
+/-- non-vacuity of the chain: the example message of C03 (a template, an options template, two data sets with a
+variable-length field and set padding, three records) meets both hypotheses -/
+example : Wire.Ipfix.wfMsg C03.exAddr [] C03.exMsg = true ∧ (Wire.Ipfix.expected C03.exAddr [] C03.exMsg).1 ≠ [] := by
+  refine ⟨by set_option maxRecDepth 100000 in decide, ?_⟩
+  intro h
+  have h3 : (Wire.Ipfix.expected C03.exAddr [] C03.exMsg).1.length = 3 := by rfl
+  rw [h] at h3; exact absurd h3 (by decide)
+
+end EndToEnd
 
 /-! ## What the leaves carry (re-exported from `Vflow.Proofs.JsonLex`) -/
 
